@@ -79,12 +79,15 @@ type frame struct {
 	n      int // number of enabled transitions
 	chosen int // index taken
 	def    int // default index
-	devs   int // deviations used before this frame (as adopted from the table epoch)
-	slot   uint64
+	devs   int // deviations used before this frame
+	// successor keys of the alternatives not yet tried, in the order they will be tried
+	alts []alt
+}
+
+type alt struct {
+	idx    int
+	key    vs.H
 	budget int
-	k      int   // alternative number currently explored
-	fp     vs.H
-	todo   []int // only used when the table is full: private alternatives
 }
 
 type dfs struct {
@@ -99,8 +102,6 @@ type dfs struct {
 	items      [][]int
 }
 
-const s1Budget = 200
-
 var dumpF = func() *os.File {
 	if p := os.Getenv("VS_DUMP"); p != "" {
 		f, _ := os.OpenFile(p+fmt.Sprint(os.Getpid()), os.O_CREATE|os.O_WRONLY|os.O_APPEND, 0o644)
@@ -109,22 +110,28 @@ var dumpF = func() *os.File {
 	return nil
 }()
 
-// altIndex maps alternative number k to a transition index.  The mapping must
-// be a function of the table key alone, because several workers (reaching the
-// state by different paths) share the alternatives of one state: in S1 the key
-// is the state, so the index is k itself; in S2 the key contains the goroutine
-// that ran last, hence the default index, and alternative 0 is the default.
-func (d *dfs) altIndex(k, def int) int {
-	if d.opt.Mode != "S2" {
-		return k
+// claim takes the first alternative of f whose successor state nobody has
+// expanded yet (with at least this budget); false if there is none.  The
+// successor's key is computed before the transition is executed
+// (vs.Sched.PeekKey), so a transition into a known state costs no execution.
+func (d *dfs) claim(f *frame) bool {
+	for len(f.alts) > 0 {
+		a := f.alts[0]
+		f.alts = f.alts[1:]
+		_, _, _, fresh, prune := d.table.Claim(a.key, a.budget, 1)
+		if prune {
+			continue
+		}
+		if fresh {
+			d.st.States++
+			if dumpF != nil {
+				fmt.Fprintf(dumpF, "%x %x\n", a.key.A, a.key.B)
+			}
+		}
+		f.chosen = a.idx
+		return true
 	}
-	if k == 0 {
-		return def
-	}
-	if k-1 < def {
-		return k - 1
-	}
-	return k
+	return false
 }
 
 func (d *dfs) Pick(s *vs.Sched, en []vs.Trans) int {
@@ -144,7 +151,7 @@ func (d *dfs) Pick(s *vs.Sched, en []vs.Trans) int {
 	if d.replayOnly {
 		vs.EngineError("replay of %s ran past the recorded choices at step %d", d.sc.Name, i)
 	}
-	// new state
+	// a state not on the stack yet: compute the keys of all its successors
 	def := DefaultIndex(s, en)
 	devs := 0
 	if i > 0 {
@@ -154,26 +161,11 @@ func (d *dfs) Pick(s *vs.Sched, en []vs.Trans) int {
 			devs++
 		}
 	}
-	fp := s.Fingerprint()
-	budget := s1Budget
-	if d.opt.Mode == "S2" {
-		// the default continuation depends on the goroutine that ran last
-		if l := s.Last(); l != nil {
-			fp = vs.MixH(fp, l.ChainID())
-		}
-		budget = d.opt.Bound - devs
-		if budget < 0 {
-			budget = 0
-		}
-	}
-	k, b, slot, fresh, prune := d.table.Claim(fp, budget, len(en))
-	if prune {
-		return -1
-	}
-	if d.cut > 0 && len(en) > 1 && b > 0 {
+	s2 := d.opt.Mode == "S2"
+	if d.cut > 0 && len(en) > 1 && (!s2 || devs < d.opt.Bound) {
 		nb := 0
 		for _, fr := range d.stack {
-			if fr.n > 1 && fr.budget > 0 {
+			if fr.n > 1 && (!s2 || fr.devs < d.opt.Bound) {
 				nb++
 			}
 		}
@@ -182,26 +174,35 @@ func (d *dfs) Pick(s *vs.Sched, en []vs.Trans) int {
 			return -1
 		}
 	}
-	if fresh {
-		d.st.States++
-		if dumpF != nil {
-			fmt.Fprintf(dumpF, "%x %x cut=%d n=%d path=%v\n", fp.A, fp.B, d.cut, len(en), d.choices())
+	f := frame{n: len(en), def: def, devs: devs}
+	order := make([]int, 0, len(en))
+	order = append(order, def)
+	for k := range en {
+		if k != def {
+			order = append(order, k)
 		}
 	}
-	d.st.Transitions++
-	f := frame{n: len(en), def: def, devs: devs, slot: slot, budget: b, k: k}
-	if d.opt.Mode == "S2" {
-		f.devs = d.opt.Bound - b // adopt the (possibly larger) budget of the table epoch
-	}
-	if slot == noSlot && len(en) > 1 && b > 0 {
-		for a := 1; a < len(en); a++ {
-			f.todo = append(f.todo, a)
+	for _, k := range order {
+		budget := 0
+		if s2 {
+			budget = d.opt.Bound - devs
+			if k != def {
+				budget--
+			}
+			if budget < 0 {
+				continue
+			}
 		}
+		key, last := s.PeekKey(en[k])
+		if s2 && last != nil {
+			// the default continuation depends on the goroutine that ran last
+			key = vs.MixH(key, last.ChainID())
+		}
+		d.st.Transitions++
+		f.alts = append(f.alts, alt{k, key, budget})
 	}
-	f.chosen = d.altIndex(k, def)
-	f.fp = fp
-	if dumpF != nil && d.cut == 0 {
-		fmt.Fprintf(dumpF, "claim %x %x k=%d n=%d slot=%d\n", fp.A, fp.B, k, len(en), slot)
+	if !d.claim(&f) {
+		return -1
 	}
 	d.stack = append(d.stack, f)
 	d.depth++
@@ -212,21 +213,7 @@ func (d *dfs) Pick(s *vs.Sched, en []vs.Trans) int {
 func (d *dfs) next(floor int) bool {
 	for len(d.stack) > floor {
 		f := &d.stack[len(d.stack)-1]
-		if f.slot == noSlot {
-			if len(f.todo) > 0 {
-				f.k = f.todo[0]
-				f.todo = f.todo[1:]
-				f.chosen = d.altIndex(f.k, f.def)
-				d.st.Transitions++
-				return true
-			}
-		} else if k, ok := d.table.ClaimNext(f.slot, f.budget, f.n); ok {
-			f.k = k
-			f.chosen = d.altIndex(k, f.def)
-			d.st.Transitions++
-			if dumpF != nil && d.cut == 0 {
-				fmt.Fprintf(dumpF, "claim %x %x k=%d n=%d slot=%d next\n", f.fp.A, f.fp.B, k, f.n, f.slot)
-			}
+		if d.claim(f) {
 			return true
 		}
 		d.stack = d.stack[:len(d.stack)-1]
@@ -500,7 +487,7 @@ func (l *loader) Pick(s *vs.Sched, en []vs.Trans) int {
 	if c >= len(en) {
 		vs.EngineError("schedule replay divergence at step %d: choice %d of %d", i, c, len(en))
 	}
-	l.frames = append(l.frames, frame{n: len(en), chosen: c, def: def, devs: devs, slot: noSlot})
+	l.frames = append(l.frames, frame{n: len(en), chosen: c, def: def, devs: devs})
 	return c
 }
 
